@@ -249,7 +249,7 @@ def convert(dtname, text):
         fn = dtname.split(".")[-1]
         if fn == "reject":
             return ("err",)
-        if fn == "evenint":
+        if fn in ("evenint", "nested"):
             v = refdt.parse_int(text)
             if v is None or v % 2:
                 return ("err",)
